@@ -218,7 +218,7 @@ def run(tier, seed, replay=None):
                 if item:
                     i, js = item.split(":")
                     mc[int(i)] = sorted(int(x) for x in js.split(",") if x != "")
-            ic = {i: sorted(c) for i, c in enumerate(L["cands"])}
+            ic = {i: sorted(c or []) for i, c in enumerate(L["cands"] or [])}
             if frags and mc != ic:
                 res.violation("correspondence (LSH index): candidate sets differ between model and implementation, e.g. %s"
                               % [(i, mc.get(i), ic.get(i)) for i in ic if mc.get(i) != ic.get(i)][:2],
